@@ -261,7 +261,7 @@ package index
 //@ type Index
 //@   ghost field $disk (Array Int Bytes)
 //@ macro HASCUR(idx, b) = (b in idx.nextPool) || (b in idx.curPool) || idx.buckets[b] != 0
-//@ macro CUR(idx, b) = ite(b in idx.nextPool, bytes(idx.nextPool[b]), ite(b in idx.curPool, bytes(idx.curPool[b]), idx.$disk[b]))
+//@ macro CUR(idx, b) = ite(b in idx.nextPool, bytes(idx.nextPool[b]), ite(b in idx.curPool, bytes(idx.curPool[b]), idx.$disk[idx.buckets[b]]))
 
 //@ func (rl RecordList) Len() (n int)
 //@   inline
@@ -373,3 +373,72 @@ package index
 //@ lemma Bytes.prefix_take: forall p Bytes, x Bytes, n int :: isprefix(p, x) && len(p) <= n && n <= len(x) ==> isprefix(p, x[:n]) property C08
 //@ lemma Bytes.prefix_lcp: forall p Bytes, x Bytes, y Bytes :: isprefix(p, x) && isprefix(p, y) ==> len(p) <= lcp(x, y) property C08
 //@ lemma Bytes.sub_whole: forall b Bytes :: bsub(b, 0, len(b)) == b property C08
+
+// Lookups (C08): Get / GetRecord return the LAST entry whose stored key is a prefix of the key
+// (the early break is justified by sortedness).
+//@ func (rl RecordList) Get(key []byte) (blk types.Block, found bool)
+//@   abstract gap GAP-RL: the byte-level encoding implements the record view
+//@   requires rwf(bytes(rl)) && RLsorted(bytes(rl))
+//@   abstract ensures found == (rlast(bytes(rl), bytes(key)) >= 0)
+//@   abstract ensures found ==> keyof(blk) == rblk(bytes(rl), rlast(bytes(rl), bytes(key)))
+
+//@ func (rl RecordList) GetRecord(key []byte) (r *Record)
+//@   abstract gap GAP-RL: the byte-level encoding implements the record view
+//@   requires rwf(bytes(rl)) && RLsorted(bytes(rl))
+//@   fresh r
+//@   abstract ensures (r != nil) == (rlast(bytes(rl), bytes(key)) >= 0)
+//@   abstract ensures r != nil ==> r.Pos == rst(bytes(rl), rlast(bytes(rl), bytes(key))) && bytes(r.Key) == rkey(bytes(rl), rlast(bytes(rl), bytes(key))) && keyof(r.Block) == rblk(bytes(rl), rlast(bytes(rl), bytes(key)))
+
+// lookup_own (the C08 statement): under the representation invariant every present key
+// resolves to its own entry - no other entry's stored key is a prefix of it after it.
+//@ lemma RecList.lookup_own: forall B Bytes, F (Array Int Bytes), i int :: rwf(B) && (forall a int, b int :: 0 <= a && a < b && b < rn(B) ==> blt(rkey(B, a), rkey(B, b))) && (forall a int, b int :: 0 <= a && a < rn(B) && 0 <= b && b < rn(B) && a != b ==> !isprefix(rkey(B, a), rkey(B, b))) && (forall a int :: 0 <= a && a < rn(B) ==> isprefix(rkey(B, a), F[a])) && (forall a int, b int :: 0 <= a && a < rn(B) && 0 <= b && b < rn(B) ==> len(F[a]) == len(F[b])) && 0 <= i && i < rn(B) ==> rlast(B, F[i]) == i property C08
+
+// Index.Update (C08): the entry the key resolves to gets the new location, same stored key,
+// every other entry identical; the invariant is preserved when that entry is the key's own
+// (which the store guarantees by comparing full keys).
+//@ func (idx *Index) Update(key []byte, location types.Block) (err error)  property C08
+//@   define BK() = le32(bytes(key), 0) % pow2(idx.sizeBits)
+//@   define IK() = STRIP(idx, bytes(key))
+//@   define L() = len(key) - PFX(idx)
+//@   define B0() = old(CUR(idx, BK()))
+//@   define I0() = rlast(B0(), IK())
+//@   preserves idx
+//@   requires @config idx.sizeBits >= 8 && idx.sizeBits <= 31
+//@   requires @wf-bucket len(key) >= 4 && HASCUR(idx, BK()) ==> RL(idx, CUR(idx, BK()), L())
+//@   requires @record-stored idx.Primary.$Rin[keyof(location)] && ikey(idx.Primary.$Rkey[keyof(location)]) == bytes(key)
+//@   requires @fresh-location len(key) >= 4 && HASCUR(idx, BK()) ==> forall i int :: 0 <= i && i < rn(CUR(idx, BK())) ==> rblk(CUR(idx, BK()), i) != keyof(location)
+//@   requires @own-entry len(key) >= 4 && HASCUR(idx, BK()) && rlast(CUR(idx, BK()), IK()) >= 0 ==> FK(idx, CUR(idx, BK()), rlast(CUR(idx, BK()), IK())) == IK()
+//@   modifies idx.outstandingWork, mapof(idx.nextPool)
+//@   assert at after call index.RecordList.PutKeys#0: @upd-sorted RLsorted(bytes($r0))
+//@   assert at after call index.RecordList.PutKeys#0: @upd-prefixfree RLprefixfree(bytes($r0))
+//@   assert at after call index.RecordList.PutKeys#0: @upd-own RLown(idx, bytes($r0), L())
+//@   assert at after call index.RecordList.PutKeys#0: @upd-distinct RLdistinct(idx, bytes($r0))
+//@   assert at after call index.RecordList.PutKeys#0: @upd-view rn(bytes($r0)) == rn(B0()) && rblk(bytes($r0), I0()) == keyof(location) && rkey(bytes($r0), I0()) == rkey(B0(), I0()) && forall i int :: 0 <= i && i < rn(B0()) && i != I0() ==> rkey(bytes($r0), i) == rkey(B0(), i) && rblk(bytes($r0), i) == rblk(B0(), i)
+//@   ensures @notfound err == nil ==> old(HASCUR(idx, BK())) && I0() >= 0
+//@   ensures @inv err == nil ==> HASCUR(idx, BK()) && RL(idx, CUR(idx, BK()), L())
+//@   ensures @repointed err == nil ==> rn(CUR(idx, BK())) == rn(B0()) && rblk(CUR(idx, BK()), I0()) == keyof(location) && rkey(CUR(idx, BK()), I0()) == rkey(B0(), I0())
+//@   ensures @others-untouched err == nil ==> forall i int :: 0 <= i && i < rn(B0()) && i != I0() ==> rkey(CUR(idx, BK()), i) == rkey(B0(), i) && rblk(CUR(idx, BK()), i) == rblk(B0(), i)
+//@   ensures @err-unchanged err != nil ==> CUR(idx, BK()) == B0()
+
+// Index.Remove (C08): the entry the key resolves to is removed, every other entry identical.
+//@ func (idx *Index) Remove(key []byte) (removed bool, err error)  property C08
+//@   define BK() = le32(bytes(key), 0) % pow2(idx.sizeBits)
+//@   define IK() = STRIP(idx, bytes(key))
+//@   define L() = len(key) - PFX(idx)
+//@   define B0() = old(CUR(idx, BK()))
+//@   define I0() = rlast(B0(), IK())
+//@   preserves idx
+//@   requires @config idx.sizeBits >= 8 && idx.sizeBits <= 31
+//@   requires @wf-bucket len(key) >= 4 && HASCUR(idx, BK()) ==> RL(idx, CUR(idx, BK()), L())
+//@   modifies idx.outstandingWork, mapof(idx.nextPool)
+//@   assert at after call index.RecordList.PutKeys#0: @rm-sorted RLsorted(bytes($r0))
+//@   assert at after call index.RecordList.PutKeys#0: @rm-prefixfree RLprefixfree(bytes($r0))
+//@   assert at after call index.RecordList.PutKeys#0: @rm-own RLown(idx, bytes($r0), L())
+//@   assert at after call index.RecordList.PutKeys#0: @rm-distinct RLdistinct(idx, bytes($r0))
+//@   assert at after call index.RecordList.PutKeys#0: @rm-idx bytes(records) == B0() && I0() >= 0 && ridx(B0(), r.Pos) == I0() && ridx(B0(), r.Pos + 13 + len(r.Key)) == I0() + 1 && rn(bytes($r0)) == rn(B0()) - 1
+//@   assert at after call index.RecordList.PutKeys#0: @rm-view-low forall i int :: 0 <= i && i < I0() ==> rkey(bytes($r0), i) == rkey(B0(), i) && rblk(bytes($r0), i) == rblk(B0(), i)
+//@   assert at after call index.RecordList.PutKeys#0: @rm-view-high forall i int :: I0() <= i && i < rn(B0()) - 1 ==> rkey(bytes($r0), i) == rkey(B0(), i + 1) && rblk(bytes($r0), i) == rblk(B0(), i + 1)
+//@   ensures @result err == nil ==> removed == (old(HASCUR(idx, BK())) && I0() >= 0)
+//@   ensures @inv err == nil && removed ==> HASCUR(idx, BK()) && RL(idx, CUR(idx, BK()), L())
+//@   ensures @removed-entry err == nil && removed ==> rn(CUR(idx, BK())) == rn(B0()) - 1 && (forall i int :: 0 <= i && i < I0() ==> rkey(CUR(idx, BK()), i) == rkey(B0(), i) && rblk(CUR(idx, BK()), i) == rblk(B0(), i)) && (forall i int :: I0() <= i && i < rn(B0()) - 1 ==> rkey(CUR(idx, BK()), i) == rkey(B0(), i + 1) && rblk(CUR(idx, BK()), i) == rblk(B0(), i + 1))
+//@   ensures @not-removed-unchanged !removed ==> CUR(idx, BK()) == B0()
